@@ -291,6 +291,7 @@ class LoopMixin:
             st.env[g] = V(oldv.k, fresh(g, oldv.t.sort()), cls=oldv.cls, elem=oldv.elem)
         i = fresh("_i")
         st.assume(z3.And(i >= 0, i <= n))
+        st.idx.append(i)            # the lazy universals of this path (element facts of comprehension-built lists, ...) are instantiated at the loop index
         gi = dict(ghost, _i=vint(i))
         for inv in spec.get("invariant", []):
             st.assume(self.spec_eval(inv, st, gi, old=entry))
